@@ -184,7 +184,9 @@ def run(ctx):
                 if persists:
                     ctx.violation("property_fails", msg, case, True)
                 else:
-                    ctx.count("random_collisions_seen")
+                    ctx.count("seed_specific_failures")
+                    ctx.violation("property_fails", msg + f" [only under random_seed={cfgd.get('random_seed')}; three other seeds give the right answer]",
+                                  dict(case, seed_specific=True), True)
             coq_cases.append(bfsrun.coq_case(gd, graph, starts, kw, stopk, obs))
             metas.append(case)
     ctx.sample(metas[0]); ctx.sample(metas[len(metas) // 2])
@@ -205,7 +207,7 @@ def replay(ctx, obj):
         stopk = tuple(case["stop"]) if case.get("stop") else None
         layers, dist = G.ref_bfs(gd, starts)
         msg = None
-        for s in (cfgd.get("random_seed"), 11, 222):
+        for s in ((cfgd.get("random_seed"),) if case.get("seed_specific") else (cfgd.get("random_seed"), 11, 222)):
             g2 = G.make_graph(gd, dict(cfgd, random_seed=s))
             sk = stopk
             hl = case.get("hash_layer")
